@@ -176,6 +176,8 @@ func c03Units(tier string, seed int64) []Unit {
 	for _, pr := range []struct{ key, typ string }{
 		{"recNode", "node{Kids []node}"}, {"recList", "List []*List"}, {"recDict", "Dict map[string]*Dict"}, {"recChain", "Chain [1]*Chain"},
 		{"recTree", "tree{L,R *tree}"}, {"recMutual", "A{B *B}, B{As []A}"}, {"recPtr", "P *P"},
+		// the pointer in the cycle points to a type LITERAL (array, struct, slice, map of the named type)
+		{"recPtrArr", "chain{Next *[1]chain}"}, {"recPtrStruct", "frame{Up *struct{F frame}}"}, {"recPtrSlice", "S{Kids *[]S}"}, {"recPtrMap", "M{Sub *map[bool]M}"},
 	} {
 		pr := pr
 		units = append(units, Unit{Name: "C03/Make[" + pr.typ + "]/construct", Run: func(c *Ctx) {
@@ -305,10 +307,35 @@ func ConstructProbeMain(which string) {
 	case "recPtr":
 		g := rapid.Make[recPtr]()
 		run(g.String(), func(t *rapid.T) { g.Draw(t, "v") })
+	case "recPtrArr":
+		g := rapid.Make[recPtrArr]()
+		run(g.String(), func(t *rapid.T) { g.Draw(t, "v") })
+	case "recPtrStruct":
+		g := rapid.Make[recPtrStruct]()
+		run(g.String(), func(t *rapid.T) { g.Draw(t, "v") })
+	case "recPtrSlice":
+		g := rapid.Make[recPtrSlice]()
+		run(g.String(), func(t *rapid.T) { g.Draw(t, "v") })
+	case "recPtrMap":
+		g := rapid.Make[recPtrMap]()
+		run(g.String(), func(t *rapid.T) { g.Draw(t, "v") })
 	}
 }
 
 type (
+	recPtrArr struct {
+		V    int8
+		Next *[1]recPtrArr
+	}
+	recPtrStruct struct {
+		Up *struct{ F recPtrStruct }
+	}
+	recPtrSlice struct {
+		Kids *[]recPtrSlice
+	}
+	recPtrMap struct {
+		Sub *map[bool]recPtrMap
+	}
 	recList  []*recList
 	recDict  map[string]*recDict
 	recChain [1]*recChain
